@@ -175,6 +175,18 @@ func hasNL(s string, a int, b int) bool {
 	return hasNL(s, a, b-1)
 }
 
+// hasCR: there is a carriage return in s[a:b] that is not the first half of a CR LF pair (ECMA-262 12.3: <CR> is a line
+// terminator of its own).
+func hasCR(s string, a int, b int) bool {
+	if b <= a {
+		return false
+	}
+	if s[b-1] == '\r' && byteAt(s, b) != '\n' {
+		return true
+	}
+	return hasCR(s, a, b-1)
+}
+
 //xvc:lemma induct=j measure=len(s)-j trigger=commentEnd(s,j)
 func lemmaCommentEndRange(s string, j int) bool {
 	return implies(0 <= j && j <= len(s), j <= commentEnd(s, j) && commentEnd(s, j) <= len(s))
@@ -650,6 +662,7 @@ func bracedVal(s string, h int) int { return hexAt(s, h+4, bracedN(s, h+4)) }
 //@   ensures [mono] l.position >= old(l.position)
 //@   ensures [carried.used@C15] len(l.carriedComments) == 0
 //@   ensures [nl] l.hadNewlineBefore == hasNL(l.input, old(l.position), l.position)
+//@   ensures [nl.cr@C02,C10] implies(hasCR(l.input, old(l.position), l.position), l.hadNewlineBefore)
 
 //@ func baseNextToken(l)
 //@   props C10 C11 C08 C02 C13
